@@ -1,12 +1,275 @@
-/- Driver ops for the PyNs model. Stub until the model lands. -/
+/- Driver ops for the PyNs model (`PypyrModel/PyNs.lean`, property C14).
+
+   pyns.session {ctx: [[k, V]…], imps: [[k, V]…], hidden: [[k, V]…], heap: [cell…], bi: [name…],
+                 ops: [op…], old: bool, fuel: n}
+       V    = {"tok": [org, name]} | n (constant) | null | {"ref": r}      org = ctx|imp|mod|bi|special
+       cell = {"l": [V…]} | {"t": [V…]}
+       op   = {"pyimport": [[alias, V]…]} | {"eval": Expr} | {"exec": [Stmt…]}
+       Expr = {"n": x} | {"c": n} | {"w": [x, Expr]} | {"t": [Expr…]} | {"lam": [[p…], Expr]}
+            | {"call": [Expr, [Expr…]]} | {"app": [Expr, Expr]}
+            | {"comp": {"gen": bool, "elt": Expr, "cl": [[target, Expr, [Expr…]]…]}}
+       Stmt = {"as": [x, Expr]} | {"aug": [x, Expr]} | {"del": x} | {"imp": [x, V]} | {"ex": Expr}
+            | {"def": {"f": f, "ps": [p…], "gl": [g…], "body": [[x, Expr]…], "ret": Expr}}
+            | {"cls": [c, [[x, Expr]…]]} | {"save": [[name…], [[k, Expr]…]]}
+     → {steps: [{res: {"ok": D} | {"err": name}, ctx: [[k, D]…], imps: [[k, D]…], hidden: [[k, D]…]}…],
+        stopped: bool}
+       D = {"tok": [org, name]} | n | null | {"t": [D…]} | {"l": id, "xs": [D…]} | {"fn": id}
+         | {"cls": id, "attrs": [[k, D]…]} | {"seen": id}
+       Mutable objects are numbered by first appearance in the traversal res, ctx, imps, hidden of a
+       step. The session stops after a step that ended OutOfFuel / OutOfDomain (`stopped`): the model
+       has no opinion about what follows. Ill-formed programs (what CPython's compiler refuses) are
+       rejected.
+-/
 import Lean.Data.Json
 import PypyrModel.Json
+import PypyrModel.PyNs
 
 namespace Pypyr.OpPyNs
 open Lean (Json)
+open Pypyr.PyNs
 
-/-- Handle one request object (already parsed); `Except.error` = protocol-level reject. -/
-def handle (_op : String) (_j : Json) : Except String Json :=
-  .error "not implemented"
+def orgOfStr (s : String) : Except String Org :=
+  match s with
+  | "ctx" => pure .ctx | "imp" => pure .imp | "mod" => pure .mod | "bi" => pure .bi
+  | "special" => pure .special
+  | _ => .error s!"bad org {s}"
+
+def Org.str : Org → String
+  | .ctx => "ctx" | .imp => "imp" | .mod => "mod" | .bi => "bi" | .special => "special"
+
+def vOfJson (j : Json) : Except String V :=
+  match j with
+  | .null => pure .none
+  | .num _ => do pure (.cst (← jsonNat? j))
+  | _ => do
+    if let .ok t := j.getObjVal? "tok" then
+      match t with
+      | .arr #[o, n] => return .tok (← orgOfStr (← o.getStr?)) (← n.getStr?)
+      | _ => throw "bad tok"
+    if let .ok r := j.getObjVal? "ref" then
+      return .ref (← jsonNat? r)
+    throw s!"bad value {j.compress}"
+
+def arrOf (j : Json) : Except String (List Json) := do pure (← j.getArr?).toList
+
+def strList (j : Json) : Except String (List String) := do (← arrOf j).mapM (·.getStr?)
+
+def envOfJson (j : Json) : Except String Env := do
+  (← arrOf j).mapM fun p => do
+    match p with
+    | .arr #[k, v] => pure ((← k.getStr?), (← vOfJson v))
+    | _ => throw "bad binding"
+
+def cellOfJson (j : Json) : Except String Cell := do
+  if let .ok xs := j.getObjVal? "l" then
+    return .list (← (← arrOf xs).mapM vOfJson)
+  if let .ok xs := j.getObjVal? "t" then
+    return .tuple (← (← arrOf xs).mapM vOfJson)
+  throw s!"bad cell {j.compress}"
+
+partial def exprOfJson (j : Json) : Except String Expr := do
+  if let .ok n := j.getObjVal? "n" then
+    return .name (← n.getStr?)
+  if let .ok c := j.getObjVal? "c" then
+    return .const (← jsonNat? c)
+  if let .ok w := j.getObjVal? "w" then
+    match w with
+    | .arr #[x, e] => return .walrus (← x.getStr?) (← exprOfJson e)
+    | _ => throw "bad walrus"
+  if let .ok t := j.getObjVal? "t" then
+    return .tuple (← (← arrOf t).mapM exprOfJson)
+  if let .ok l := j.getObjVal? "lam" then
+    match l with
+    | .arr #[ps, b] => return .lam (← strList ps) (← exprOfJson b)
+    | _ => throw "bad lam"
+  if let .ok c := j.getObjVal? "call" then
+    match c with
+    | .arr #[f, args] => return .call (← exprOfJson f) (← (← arrOf args).mapM exprOfJson)
+    | _ => throw "bad call"
+  if let .ok c := j.getObjVal? "app" then
+    match c with
+    | .arr #[t, e] => return .append (← exprOfJson t) (← exprOfJson e)
+    | _ => throw "bad app"
+  if let .ok c := j.getObjVal? "comp" then
+    let gen ← (← c.getObjVal? "gen").getBool?
+    let elt ← exprOfJson (← c.getObjVal? "elt")
+    let cls ← (← arrOf (← c.getObjVal? "cl")).mapM fun cl => do
+      match cl with
+      | .arr #[t, it, cs] =>
+        pure ((← t.getStr?), (← exprOfJson it), (← (← arrOf cs).mapM exprOfJson))
+      | _ => throw "bad clause"
+    return .comp gen elt cls
+  throw s!"bad expr {j.compress}"
+
+def bodyOfJson (j : Json) : Except String (List (String × Expr)) := do
+  (← arrOf j).mapM fun p => do
+    match p with
+    | .arr #[x, e] => pure ((← x.getStr?), (← exprOfJson e))
+    | _ => throw "bad body line"
+
+def stmtOfJson (j : Json) : Except String Stmt := do
+  if let .ok p := j.getObjVal? "as" then
+    match p with
+    | .arr #[x, e] => return .assign (← x.getStr?) (← exprOfJson e)
+    | _ => throw "bad assign"
+  if let .ok p := j.getObjVal? "aug" then
+    match p with
+    | .arr #[x, e] => return .aug (← x.getStr?) (← exprOfJson e)
+    | _ => throw "bad aug"
+  if let .ok x := j.getObjVal? "del" then
+    return .del (← x.getStr?)
+  if let .ok p := j.getObjVal? "imp" then
+    match p with
+    | .arr #[x, v] => return .imp (← x.getStr?) (← vOfJson v)
+    | _ => throw "bad imp"
+  if let .ok e := j.getObjVal? "ex" then
+    return .expr (← exprOfJson e)
+  if let .ok d := j.getObjVal? "def" then
+    return .def_ (← (← d.getObjVal? "f").getStr?) (← strList (← d.getObjVal? "ps"))
+      (← strList (← d.getObjVal? "gl")) (← bodyOfJson (← d.getObjVal? "body"))
+      (← exprOfJson (← d.getObjVal? "ret"))
+  if let .ok p := j.getObjVal? "cls" then
+    match p with
+    | .arr #[c, b] => return .cls (← c.getStr?) (← bodyOfJson b)
+    | _ => throw "bad cls"
+  if let .ok p := j.getObjVal? "save" then
+    match p with
+    | .arr #[ns, kws] => return .save (← strList ns) (← bodyOfJson kws)
+    | _ => throw "bad save"
+  throw s!"bad stmt {j.compress}"
+
+inductive Op where
+  | pyimport (b : Env)
+  | eval (e : Expr)
+  | exec (b : List Stmt)
+
+def opOfJson (j : Json) : Except String Op := do
+  if let .ok b := j.getObjVal? "pyimport" then
+    return .pyimport (← envOfJson b)
+  if let .ok e := j.getObjVal? "eval" then
+    let e ← exprOfJson e
+    if !e.wf [] false false false then throw "ill-formed expression"
+    return .eval e
+  if let .ok b := j.getObjVal? "exec" then
+    let b ← (← arrOf b).mapM stmtOfJson
+    if !b.all Stmt.wf then throw "ill-formed block"
+    return .exec b
+  throw s!"bad op {j.compress}"
+
+/-! dump with numbering of mutable objects by first appearance -/
+
+abbrev Seen := List (Nat × Nat)
+
+def seenGet (s : Seen) (r : Nat) : Option Nat :=
+  match s with
+  | [] => none
+  | (r', k) :: rest => if r' = r then some k else seenGet rest r
+
+mutual
+partial def dumpV (heap : List Cell) (s : Seen) (v : V) : Json × Seen :=
+  match v with
+  | .tok o n => (Json.mkObj [("tok", Json.arr #[Json.str (Org.str o), Json.str n])], s)
+  | .cst n => (Json.num (Lean.JsonNumber.fromNat n), s)
+  | .none => (Json.null, s)
+  | .ref r =>
+    match heap[r]? with
+    | some (.tuple xs) =>
+      let (js, s1) := dumpL heap s xs
+      (Json.mkObj [("t", Json.arr js.toArray)], s1)
+    | some (.list xs) =>
+      match seenGet s r with
+      | some k => (Json.mkObj [("seen", k)], s)
+      | none =>
+        let k := s.length
+        let (js, s1) := dumpL heap ((r, k) :: s) xs
+        (Json.mkObj [("l", k), ("xs", Json.arr js.toArray)], s1)
+    | some (.clo _) =>
+      match seenGet s r with
+      | some k => (Json.mkObj [("seen", k)], s)
+      | none => (Json.mkObj [("fn", s.length)], (r, s.length) :: s)
+    | some (.cls attrs) =>
+      match seenGet s r with
+      | some k => (Json.mkObj [("seen", k)], s)
+      | none =>
+        let k := s.length
+        let (js, s1) := dumpE heap ((r, k) :: s) attrs
+        (Json.mkObj [("cls", k), ("attrs", Json.arr js.toArray)], s1)
+    | some (.frame _) => (Json.mkObj [("frame", r)], s)
+    | none => (Json.mkObj [("dangling", r)], s)
+partial def dumpL (heap : List Cell) (s : Seen) (xs : List V) : List Json × Seen :=
+  match xs with
+  | [] => ([], s)
+  | x :: rest =>
+    let (j, s1) := dumpV heap s x
+    let (js, s2) := dumpL heap s1 rest
+    (j :: js, s2)
+partial def dumpE (heap : List Cell) (s : Seen) (e : Env) : List Json × Seen :=
+  match e with
+  | [] => ([], s)
+  | (k, v) :: rest =>
+    let (j, s1) := dumpV heap s v
+    let (js, s2) := dumpE heap s1 rest
+    (Json.arr #[Json.str k, j] :: js, s2)
+end
+
+def stepJson (st : St) (res : R (Option V)) : Json :=
+  let (rj, s0) : Json × Seen :=
+    match res with
+    | .err e => (Json.mkObj [("err", Json.str e.name)], [])
+    | .ok none => (Json.mkObj [("ok", Json.null)], [])
+    | .ok (some v) => let (j, s) := dumpV st.heap [] v; (Json.mkObj [("ok", j)], s)
+  let (cj, s1) := dumpE st.heap s0 st.ctx
+  let (ij, s2) := dumpE st.heap s1 st.imps
+  let (hj, _) := dumpE st.heap s2 (st.hidden.filter (fun kv => kv.1 != "__builtins__"))
+  Json.mkObj [("res", rj), ("ctx", Json.arr cj.toArray), ("imps", Json.arr ij.toArray),
+              ("hidden", Json.arr hj.toArray)]
+
+def fatal (e : Err) : Bool := e == .outOfFuel || e == .outOfDomain
+
+def runOps (old : Bool) (fuel : Nat) : List Op → St → List Json → List Json × Bool
+  | [], _, acc => (acc.reverse, false)
+  | op :: rest, st, acc =>
+    match op with
+    | .pyimport b =>
+      let st1 := runPyImport st b
+      runOps old fuel rest st1 (stepJson st1 (.ok none) :: acc)
+    | .eval e =>
+      match runEval old fuel st e with
+      | (.ok v, st1) => runOps old fuel rest st1 (stepJson st1 (.ok (some v)) :: acc)
+      | (.err er, st1) =>
+        if fatal er then ((stepJson st1 (.err er) :: acc).reverse, true)
+        else runOps old fuel rest st1 (stepJson st1 (.err er) :: acc)
+    | .exec b =>
+      match runPyStep fuel st b with
+      | (.ok _, st1) => runOps old fuel rest st1 (stepJson st1 (.ok none) :: acc)
+      | (.err er, st1) =>
+        if fatal er then ((stepJson st1 (.err er) :: acc).reverse, true)
+        else runOps old fuel rest st1 (stepJson st1 (.err er) :: acc)
+
+def handle (op : String) (j : Json) : Except String Json := do
+  match op with
+  | "session" =>
+    let ctx ← envOfJson (← j.getObjVal? "ctx")
+    let imps ← match j.getObjVal? "imps" with
+      | .ok x => envOfJson x
+      | .error _ => pure []
+    let hidden ← match j.getObjVal? "hidden" with
+      | .ok x => envOfJson x
+      | .error _ => pure []
+    let heap ← (← arrOf (← j.getObjVal? "heap")).mapM cellOfJson
+    let bi ← strList (← j.getObjVal? "bi")
+    let ops ← (← arrOf (← j.getObjVal? "ops")).mapM opOfJson
+    let old ← match j.getObjVal? "old" with
+      | .ok b => b.getBool?
+      | .error _ => pure false
+    let fuel ← match j.getObjVal? "fuel" with
+      | .ok f => jsonNat? f
+      | .error _ => pure 400
+    let st : St := { ctx := ctx, imps := imps, hidden := ("__builtins__", builtinsTok) :: hidden,
+                     scratch := [], ns := [], bi := bi.map (fun n => (n, V.tok .bi n)),
+                     heap := heap, saved := [] }
+    let (steps, stopped) := runOps old fuel ops st []
+    pure (Json.mkObj [("steps", Json.arr steps.toArray), ("stopped", Json.bool stopped)])
+  | _ => .error s!"unknown op {op}"
 
 end Pypyr.OpPyNs
